@@ -99,6 +99,7 @@ const (
 	where
 		key = ? and (etime is null or etime > ?)
 		and rzset.rowid > ? and elem glob ?
+	order by rzset.rowid
 	limit ?`
 )
 
